@@ -99,12 +99,17 @@ impl TrackerClient {
 
     fn create_url(metainfo: &Metainfo) -> String {
         let info_hash: String = form_urlencoded::byte_serialize(metainfo.info_hash()).collect();
+        // Fragment is never sent to tracker, so query have to be placed before it
+        let (url, fragment) = match metainfo.tracker_url().find('#') {
+            Some(pos) => metainfo.tracker_url().split_at(pos),
+            None => (metainfo.tracker_url().as_str(), ""),
+        };
         // Announce URL can already contain query
-        let separator = match metainfo.tracker_url().find('?') {
-            Some(_) if metainfo.tracker_url().ends_with(&['?', '&'][..]) => "",
+        let separator = match url.find('?') {
+            Some(_) if url.ends_with(&['?', '&'][..]) => "",
             Some(_) => "&",
             None => "?",
         };
-        metainfo.tracker_url().clone() + separator + "info_hash=" + info_hash.as_str()
+        url.to_string() + separator + "info_hash=" + info_hash.as_str() + fragment
     }
 }
